@@ -16,6 +16,23 @@ CLAIMS = {
     "C02": (E2TXT + " Functions: from_parts/normalize, from_total_nanoseconds, total_nanoseconds, (try_)truncated_nanoseconds, "
             "from_truncated_nanoseconds, Unit*i64, i64*Unit.", "3 (C02)",
             "symbolic execution of rustc MIR + z3 (integer SMT, full width); native replay"),
+    "C04": (E2TXT + " Epoch +/- Duration, +/- Unit, += -= (all nine scales, scale symbolic), Epoch - Epoch over the 36 uniform scale pairs; "
+            "Epoch + f64 (integer seconds) by Kani/CBMC with bit-precise IEEE doubles.", "3 (C04)",
+            "symbolic execution of rustc MIR + z3 (full width); Kani/CBMC for the f64 form; native replay"),
+    "C05": (E2TXT + " Epoch::to_time_scale over all 36 ordered pairs of uniform scales with offsets recomputed from the statement; wrappers, "
+            "reference epochs and duplicated constants by Kani/CBMC.", "3 (C05)",
+            "symbolic execution of rustc MIR + z3; Kani/CBMC for wrappers/constants; native replay"),
+    "C06": ("Kani/CBMC bounded model checking of the real UTC<->TAI code (leap-second table scan, f64 table values) against an oracle table generated at check time "
+            "from data/leap-seconds.list and naif0012.txt: every instant 1900-2100 at nanosecond resolution is a solver variable, so all +/-40 s neighbourhoods of the 28 entries are inside the domain; "
+            "other centuries separately; table identity, both iteration directions, provider equivalence.", "3 (C06)",
+            "bounded model checking (Kani/CBMC SAT, unwind 44) against a generated oracle table; native replay"),
+    "C12": (E2TXT + " Epoch ==, cmp, partial_cmp, min, max over the 36 uniform scale pairs at full width (instants as exact TAI nanoseconds); "
+            "UTC vs TAI operands in both orders by Kani/CBMC against the IERS oracle table, every pair of instants in 1900-2100.", "3 (C12)",
+            "symbolic execution of rustc MIR + z3; Kani/CBMC for UTC operands; native replay"),
+    "C15": (E2TXT + " One-step induction on TimeSeries::next from an arbitrary iterator state (covers histories of any length) and the two constructors.", "3 (C15)",
+            "symbolic execution of rustc MIR + z3, one inductive step from an arbitrary state (UF multiplication + refinement); native replay"),
+    "C20": (E2TXT + " from_time_of_week / to_time_of_week (every u32 x u64; every non-negative elapsed time), the four GNSS nanosecond counters in both directions.", "3 (C20)",
+            "symbolic execution of rustc MIR + z3 (full width); native replay"),
     "C14": (E2TXT + " floor/ceil/round with both operands symbolic (division by a symbolic step through fresh quotient/remainder "
             "and the division lemma; symbolic products uninterpreted with instantiated facts, counterexamples refined with real multiplication).", "3 (C14)",
             "symbolic execution of rustc MIR + z3 (division lemma, UF multiplication + refinement); native replay"),
